@@ -27,7 +27,15 @@ import (
 func init() {
 	execs["chain"] = execChain
 	gens["C03"] = func(r *rand.Rand, tier string, emit Emit) { genChain(r, tier, emit, false) }
-	gens["C15"] = func(r *rand.Rand, tier string, emit Emit) { genChain(r, tier, emit, true) }
+	gens["C15"] = func(r *rand.Rand, tier string, emit Emit) {
+		genChain(r, tier, emit, true)
+		// which mode a process is in: FLAMEGO_ENV at start, SetEnv afterwards (harness/envinit.go)
+		n := 25
+		if tier == "thorough" {
+			n = 300
+		}
+		genEnvInit(r, emit, n)
+	}
 }
 
 // ---------------------------------------------------------------------------- programs
